@@ -391,10 +391,16 @@ def leanchecker(mod):
 # ---------------------------------------------------------------------------
 
 def known_findings():
-    p = os.path.join(ROOT, "known_findings.json")
-    if not os.path.exists(p):
-        return []
-    return json.load(open(p)).get("findings", [])
+    """Entries of known_findings.json plus every known_findings.d/*.json (same format)."""
+    out = []
+    ps = [os.path.join(ROOT, "known_findings.json")]
+    d = os.path.join(ROOT, "known_findings.d")
+    if os.path.isdir(d):
+        ps += sorted(os.path.join(d, f) for f in os.listdir(d) if f.endswith(".json"))
+    for p in ps:
+        if os.path.exists(p):
+            out += json.load(open(p)).get("findings", [])
+    return out
 
 
 class Check:
